@@ -17,9 +17,10 @@
 //!                value function;
 //!     oracle:    parallel result == solo result (same programs run one after the other on a
 //!                second VM), every requested module body ran exactly once, nothing hangs/crashes.
-//! * `xfer` — two OS threads re-rooting values between threads of one VM (dst₁←src₁, dst₂←src₂)
-//!   many times.  impl.txt: whether the pair hung; model: exhaustive search of the `Locks` model of
-//!   `deep_clone_value`; oracle: a hang is a deadlock.
+//! * `locks` — two OS threads each repeating one VM operation many times on threads of one VM
+//!   (`re_root` dst←src, `collect`, calling a function with an argument rooted elsewhere,
+//!   `new_thread`).  impl.txt: whether the pair hung; model: exhaustive search of the `Locks` model
+//!   (acquisition orders read from the code); oracle: a hang is a deadlock.
 use gluon::query::CompilationBase;
 use gluon::vm::api::{FunctionRef, OpaqueValue, IO};
 use gluon::vm::channel::{ChannelRecord, Receiver, Sender};
@@ -263,11 +264,31 @@ fn mk_vm(case: &ParCase) -> Result<(RootedThread, Vec<Chan>), String> {
     Ok((vm, chans))
 }
 
-fn err_class(e: &str) -> String {
+thread_local! {
+    static PANIC_AT: std::cell::RefCell<String> = std::cell::RefCell::new(String::new());
+}
+/// remember where the last panic of this OS thread happened (`dir/file.rs:line`)
+fn install_panic_hook() {
+    std::panic::set_hook(Box::new(|info| {
+        let at = match info.location() {
+            Some(l) => {
+                let f = l.file();
+                let parts: Vec<&str> = f.rsplit('/').take(2).collect();
+                format!("{}/{}:{}", parts.get(1).unwrap_or(&""), parts.first().unwrap_or(&""), l.line())
+            }
+            None => "unknown".to_string(),
+        };
+        eprintln!("c14-panic-at {}", at);
+        PANIC_AT.with(|p| *p.borrow_mut() = at);
+    }));
+}
+fn sanitize(e: &str, n: usize) -> String {
     let first = e.lines().next().unwrap_or("");
-    let mut s: String = first.chars().take(60).collect();
-    s = s.replace(|c: char| !c.is_ascii_alphanumeric(), "_");
-    format!("err:{}", s)
+    let s: String = first.chars().take(n).collect();
+    s.replace(|c: char| !c.is_ascii_alphanumeric(), "_")
+}
+fn err_class(e: &str) -> String {
+    format!("err:{}", sanitize(e, 60))
 }
 
 /// Run program `p` on thread `th` (compile + run, the whole thing on the calling OS thread).
@@ -329,6 +350,7 @@ fn run_prog(th: &Thread, idx: usize, p: &Prog, chans: &[Chan], spin_limit: u64) 
 }
 
 fn child_par(case: &ParCase) -> Value {
+    install_panic_hook();
     let n = case.progs.len();
     let k = case.modules.len();
     // ---- solo reference: the same programs, one after the other (producers before their
@@ -382,7 +404,10 @@ fn child_par(case: &ParCase) -> Value {
                 },
             };
             drop(root);
-            run_prog(&th, i, &p, &chans, 50_000_000)
+            match gv::catch(|| run_prog(&th, i, &p, &chans, 50_000_000)) {
+                Ok(r) => r,
+                Err(msg) => format!("panic:{}:{}", PANIC_AT.with(|p| p.borrow().clone()), sanitize(&msg, 40)),
+            }
         }));
     }
     let coll = if case.collector {
@@ -403,13 +428,16 @@ fn child_par(case: &ParCase) -> Value {
     barrier.wait();
     let par: Vec<String> = handles
         .into_iter()
-        .map(|h| h.join().unwrap_or_else(|_| "err:os_thread_panicked".into()))
+        .map(|h| h.join().unwrap_or_else(|_| "panic:os_thread".into()))
         .collect();
     done.store(true, Ordering::SeqCst);
     let collections = coll.map(|h| h.join().unwrap_or(0)).unwrap_or(0);
     let par_counts = take_counts(k);
-    // a final collection of everything with all threads quiescent, then read a module again
-    vm.collect();
+    // a final collection of everything with all threads quiescent (not after a panic: a thread
+    // that panicked while running has poisoned its context mutex)
+    if !par.iter().any(|r| r.starts_with("panic:")) {
+        vm.collect();
+    }
     json!({
         "solo": solo, "par": par,
         "solo_counts": solo_counts.0, "solo_loads": solo_counts.1,
@@ -418,46 +446,104 @@ fn child_par(case: &ParCase) -> Value {
     })
 }
 
-/// `xfer`: threads 0 = root, 1.. = children of root; OS thread j re-roots a value owned by
-/// `src_j` into `dst_j`, `iters` times.
-fn child_xfer(v: &Value) -> Value {
+/// `locks`: threads 0 = root, 1.. = children of root (created in this order); OS thread j repeats
+/// its operation `iters` times:
+///   ["reroot", d, s]   re-root a value owned by thread s into thread d  (RootedValue::re_root)
+///   ["collect", t]     t.collect()
+///   ["push", c, o]     call a function of thread c with an argument rooted in thread o
+///   ["newthread", p]   p.new_thread() and drop it again
+fn child_locks(v: &Value) -> Value {
+    gv::quiet_panics();
     let nth = v["nthreads"].as_u64().unwrap() as usize;
     let iters = v["iters"].as_u64().unwrap();
-    let pairs: Vec<(usize, usize)> = v["pairs"]
-        .as_array()
-        .unwrap()
-        .iter()
-        .map(|p| (p[0].as_u64().unwrap() as usize, p[1].as_u64().unwrap() as usize))
-        .collect();
     let root = gv::vm::new_vm();
     root.get_database_mut().set_implicit_prelude(false);
     let mut ths = vec![root.clone()];
     for _ in 1..nth {
         ths.push(root.new_thread().unwrap());
     }
-    let barrier = Arc::new(Barrier::new(pairs.len()));
+    let ops = v["ops"].as_array().unwrap().clone();
+    let barrier = Arc::new(Barrier::new(ops.len()));
+    let others = Arc::new(AtomicU64::new(
+        ops.iter().filter(|o| o[0].as_str() != Some("collect")).count() as u64,
+    ));
     let mut hs = vec![];
-    for (j, (dst, src)) in pairs.iter().enumerate() {
-        let (val, _) = ths[*src]
-            .run_expr::<OpaqueValue<RootedThread, gluon::vm::api::Hole>>(
-                &format!("v{}", j),
-                &format!("[{}, 2, 3]", j),
-            )
-            .unwrap();
-        let val: RootedValue<RootedThread> = val.into_inner();
-        let d = ths[*dst].clone();
+    for (j, op) in ops.iter().enumerate() {
+        let kind = op[0].as_str().unwrap().to_string();
+        let a = op[1].as_u64().unwrap() as usize;
+        let b = op.get(2).and_then(|x| x.as_u64()).unwrap_or(0) as usize;
         let barrier = barrier.clone();
-        hs.push(std::thread::spawn(move || {
-            barrier.wait();
-            for _ in 0..iters {
-                let _x = val.re_root(d.clone()).unwrap();
+        match kind.as_str() {
+            "reroot" => {
+                let (val, _) = ths[b]
+                    .run_expr::<OpaqueValue<RootedThread, gluon::vm::api::Hole>>(
+                        &format!("v{}", j),
+                        &format!("[{}, 2, 3]", j),
+                    )
+                    .unwrap();
+                let val: RootedValue<RootedThread> = val.into_inner();
+                let d = ths[a].clone();
+                let others = others.clone();
+                hs.push(std::thread::spawn(move || {
+                    barrier.wait();
+                    for _ in 0..iters {
+                        let _x = val.re_root(d.clone()).unwrap();
+                    }
+                    others.fetch_sub(1, Ordering::SeqCst);
+                }));
             }
-        }));
+            "collect" => {
+                // collects for as long as the non-collecting operations run (at least 2000 times)
+                let t = ths[a].clone();
+                let others = others.clone();
+                hs.push(std::thread::spawn(move || {
+                    barrier.wait();
+                    let mut n = 0u64;
+                    while n < 2000 || others.load(Ordering::SeqCst) > 0 {
+                        t.collect();
+                        n += 1;
+                    }
+                }));
+            }
+            "push" => {
+                let (val, _) = ths[b]
+                    .run_expr::<OpaqueValue<RootedThread, Vec<i64>>>(&format!("v{}", j), &format!("[{}, 2, 3]", j))
+                    .unwrap();
+                let (mut f, _): (gluon::vm::api::OwnedFunction<fn(OpaqueValue<RootedThread, Vec<i64>>) -> i64>, _) = ths[a]
+                    .run_expr(&format!("f{}", j), "let f x : Array Int -> Int = 1 in f")
+                    .unwrap();
+                let others = others.clone();
+                hs.push(std::thread::spawn(move || {
+                    barrier.wait();
+                    for _ in 0..iters {
+                        let _ = f.call(val.clone()).unwrap();
+                    }
+                    others.fetch_sub(1, Ordering::SeqCst);
+                }));
+            }
+            "newthread" => {
+                let t = ths[a].clone();
+                let others = others.clone();
+                hs.push(std::thread::spawn(move || {
+                    barrier.wait();
+                    // every new thread stays in the parent's slab until collected and
+                    // mark_child_roots is quadratic in the number of children: keep it small
+                    for _ in 0..iters.min(400) {
+                        let _c = t.new_thread().unwrap();
+                    }
+                    others.fetch_sub(1, Ordering::SeqCst);
+                }));
+            }
+            _ => return json!({"setup_error": "unknown op"}),
+        }
     }
+    let mut panicked = false;
     for h in hs {
-        h.join().unwrap();
+        if h.join().is_err() {
+            panicked = true;
+        }
     }
-    json!({"completed": true})
+    json!({"completed": true, "panicked": panicked})
 }
 
 fn child_main() {
@@ -466,7 +552,7 @@ fn child_main() {
     let v: Value = serde_json::from_str(&s).unwrap();
     let r = match v["kind"].as_str().unwrap() {
         "par" => child_par(&ParCase::from_json(&v)),
-        "xfer" => child_xfer(&v),
+        "locks" => child_locks(&v),
         _ => json!({"setup_error": "unknown kind"}),
     };
     println!("{}", r);
@@ -627,10 +713,17 @@ fn shape(case: &ParCase) -> String {
     )
 }
 
-fn run_par(out: &mut Out, case: &ParCase, rng: &mut Rng, timeout: Duration) {
-    let cj = case.to_json();
-    let req = par_request(case, rng);
-    let input = serde_json::to_vec(&cj).unwrap();
+/// What one child run of a `par` case showed.
+struct ParRun {
+    payload: String,
+    class: String,
+    /// (fingerprint, what)
+    failures: Vec<(String, String)>,
+    collections: u64,
+}
+
+fn one_par_run(case: &ParCase, cj: &Value, timeout: Duration) -> ParRun {
+    let input = serde_json::to_vec(cj).unwrap();
     let ex = gv::child::run(&["--child"], &input, timeout);
     let flags = format!(
         "{}{}{}",
@@ -639,21 +732,8 @@ fn run_par(out: &mut Out, case: &ParCase, rng: &mut Rng, timeout: Duration) {
         if case.nchan > 0 { "+channel" } else { "" }
     );
     let n = case.progs.len();
-    out.count(&format!("threads:{}", n));
-    out.count(&format!("modules:{}", case.modules.len()));
-    if case.collector { out.count("kind:collector"); }
-    if case.spawn_inside { out.count("kind:concurrent_new_thread"); }
-    if case.nchan > 0 { out.count("kind:channel_pairs"); }
-    if case.progs.iter().any(|p| p.std) { out.count("kind:std_imports"); }
-    // how much the import sets overlap: modules requested by >= 2 threads
-    let mut users = vec![0; case.modules.len()];
-    for p in &case.progs {
-        for m in case.closure(p) {
-            users[m] += 1;
-        }
-    }
-    let shared = users.iter().filter(|u| **u >= 2).count();
-    out.add("shared_module_requests", shared as u64);
+    let mut failures = vec![];
+    let mut collections = 0;
     let payload = match &ex {
         gv::child::Exit::Ok(o) => {
             let v: Value = match serde_json::from_str(o.trim()) {
@@ -674,135 +754,253 @@ fn run_par(out: &mut Out, case: &ParCase, rng: &mut Rng, timeout: Duration) {
             let (sc, pc) = (nums(&v["solo_counts"]), nums(&v["par_counts"]));
             let requested = case.requested();
             // ---- property oracle (no model): results equal solo results; bodies ran once
+            let mut any_failed = false;
             for t in 0..n {
-                if par[t] != solo[t] {
-                    let fp = if par[t].starts_with("err:") {
-                        format!("parallel-error:{}{}", par[t].trim_start_matches("err:"), flags)
-                    } else {
-                        format!("result-differs-from-solo{}", flags)
-                    };
-                    out.oracle_fail(
-                        &fp,
-                        &format!("thread {} obtained {} in parallel but {} when run alone", t, par[t], solo[t]),
-                        cj.clone(),
-                    );
-                }
                 if solo[t].starts_with("err:") {
                     // a generated program must run when alone: generator/harness problem
                     eprintln!("c14: program fails when run alone: {} \n{}", solo[t], prog_text(&case.progs[t]));
                     std::process::exit(3);
                 }
+                if par[t] != solo[t] {
+                    any_failed = true;
+                    let fp = if let Some(m) = par[t].strip_prefix("panic:") {
+                        // the panic location identifies the failing code, not the scenario
+                        let mut it = m.splitn(3, ':');
+                        format!("parallel-panic:{}:{}", it.next().unwrap_or(""), it.next().unwrap_or(""))
+                    } else if let Some(m) = par[t].strip_prefix("err:") {
+                        format!("parallel-error:{}{}", m, flags)
+                    } else {
+                        format!("result-differs-from-solo{}", flags)
+                    };
+                    failures.push((
+                        fp,
+                        format!("thread {} obtained {} in parallel but {} when run alone", t, par[t], solo[t]),
+                    ));
+                }
             }
             for m in 0..case.modules.len() {
                 let want = requested[m] as u64;
-                if pc[m] != want {
-                    out.oracle_fail(
-                        &format!("module-body-evaluated-{}-times{}", if pc[m] > 1 { "several" } else { "zero" }, flags),
-                        &format!("body of module c14m{} ran {} times in the parallel run (requested: {})", m, pc[m], want),
-                        cj.clone(),
-                    );
+                // a thread that failed may not have got as far as requesting its imports
+                let ok = if any_failed { pc[m] <= want } else { pc[m] == want };
+                if !ok {
+                    failures.push((
+                        format!("module-body-evaluated-{}-times{}", if pc[m] > 1 { "several" } else { "zero" }, flags),
+                        format!("body of module c14m{} ran {} times in the parallel run (requested: {})", m, pc[m], want),
+                    ));
                 }
                 if sc[m] != want {
-                    out.oracle_fail(
-                        "module-body-count-sequential",
-                        &format!("body of module c14m{} ran {} times in the sequential run", m, sc[m]),
-                        cj.clone(),
-                    );
+                    failures.push((
+                        "module-body-count-sequential".to_string(),
+                        format!("body of module c14m{} ran {} times in the sequential run", m, sc[m]),
+                    ));
                 }
             }
             let loads = v["par_loads"].as_u64().unwrap();
             let any_req = requested.iter().any(|b| *b) as u64;
-            if loads != any_req {
-                out.oracle_fail(
-                    &format!("extern-module-loaded-{}-times{}", loads, flags),
-                    &format!("loader of extern module c14tick ran {} times in the parallel run", loads),
-                    cj.clone(),
-                );
+            if loads > 1 || (!any_failed && loads != any_req) {
+                failures.push((
+                    format!("extern-module-loaded-{}-times{}", loads, flags),
+                    format!("loader of extern module c14tick ran {} times in the parallel run", loads),
+                ));
             }
-            out.add("collections_while_running", v["collections"].as_u64().unwrap_or(0));
+            collections = v["collections"].as_u64().unwrap_or(0);
             format!(
                 "(counts {}) (results {})",
                 pc.iter().map(|c| c.to_string()).collect::<Vec<_>>().join(" "),
-                par.iter().map(|r| r.replace(':', " ")).map(|r| format!("({})", r)).collect::<Vec<_>>().join(" ")
+                par.iter().map(|r| if r.starts_with("panic:") { "panic".to_string() } else { r.replace(':', " ") }).map(|r| format!("({})", r)).collect::<Vec<_>>().join(" ")
             )
         }
         gv::child::Exit::Timeout(_) => {
-            out.oracle_fail(
-                &format!("deadlock:parallel-run{}", flags),
-                &format!("{} OS threads did not finish within {:?} (deadlock or livelock; the schedule is not reproducible, re-run the case several times)", n, timeout),
-                cj.clone(),
-            );
+            failures.push((
+                format!("deadlock:parallel-run{}", flags),
+                format!("{} OS threads did not finish within {:?} (deadlock or livelock; the schedule is not reproducible, re-run the case several times)", n, timeout),
+            ));
             "(hang)".to_string()
         }
         gv::child::Exit::Signal(sig, _, err) => {
-            out.oracle_fail(
-                &format!("crash:signal-{}:parallel-run{}", sig, flags),
-                &format!("child process died with signal {} ({})", sig, err.lines().last().unwrap_or("")),
-                cj.clone(),
-            );
-            format!("(crash signal {})", sig)
+            // memory corruption shows as SIGSEGV, or as an abort from a misaligned/invalid pointer
+            // check somewhere in the collector: the site varies from run to run, so the fingerprint
+            // names the scenario (which features were active), the message goes into `what`
+            let at = err.lines().filter(|l| l.starts_with("c14-panic-at")).last().unwrap_or("").to_string();
+            let msg = err.lines().filter(|l| l.contains("panicked at") || l.contains("misaligned") || l.contains("aborting")).collect::<Vec<_>>().join(" / ");
+            failures.push((
+                format!("crash:memory-corruption:parallel-run{}", flags),
+                format!("child process died with signal {} ({} {})", sig, at, msg.chars().take(300).collect::<String>()),
+            ));
+            "(crash)".to_string()
         }
         gv::child::Exit::Code(3, _, err) => {
             eprintln!("c14: child setup problem: {}", err);
             std::process::exit(3);
         }
         gv::child::Exit::Code(c, _, err) => {
-            out.oracle_fail(
-                &format!("crash:exit-{}:parallel-run{}", c, flags),
-                &format!("child process exited with code {} ({})", c, err.lines().last().unwrap_or("")),
-                cj.clone(),
-            );
+            failures.push((
+                format!("crash:exit-{}:parallel-run{}", c, flags),
+                format!("child process exited with code {} ({})", c, err.lines().last().unwrap_or("")),
+            ));
             format!("(crash exit {})", c)
         }
     };
-    out.count(&format!("outcome:{}", ex.class()));
-    out.class(format!("{}:{}", shape(case), ex.class()));
-    if out.n_cases % 9 == 2 {
-        out.sample(json!({"case": cj, "impl": payload}));
-    }
-    out.case(&req, &payload);
+    ParRun { payload, class: ex.class(), failures, collections }
 }
 
-/// threads: 0 = root, 1..nth-1 children.  Lock names for the model: `c<i>` context, `v<i>`
-/// rooted_values.
-fn run_xfer(out: &mut Out, nth: usize, pairs: &[(usize, usize)], iters: u64, timeout: Duration) {
-    let cj = json!({"kind": "xfer", "nthreads": nth, "pairs": pairs.iter().map(|p| json!([p.0, p.1])).collect::<Vec<_>>(), "iters": iters});
-    let mut req = String::from("xfer");
-    for (d, s) in pairs {
-        req.push_str(&format!(" ({} {})", d, s));
+const MAX_RUNS: usize = 6;
+
+/// One `par` case.  The schedule of the real run is not controllable, so a failing run (a
+/// property-oracle failure: always reported) is repeated — up to MAX_RUNS runs — and the payload of
+/// the first clean run is what the model has to reproduce; if no run is clean the failing payload
+/// is emitted (and then also disagrees with the model).
+fn run_par(out: &mut Out, case: &ParCase, rng: &mut Rng, timeout: Duration) {
+    let cj = case.to_json();
+    let req = par_request(case, rng);
+    let n = case.progs.len();
+    out.count(&format!("threads:{}", n));
+    out.count(&format!("modules:{}", case.modules.len()));
+    if case.collector { out.count("kind:collector"); }
+    if case.spawn_inside { out.count("kind:concurrent_new_thread"); }
+    if case.nchan > 0 { out.count("kind:channel_pairs"); }
+    if case.progs.iter().any(|p| p.std) { out.count("kind:std_imports"); }
+    // how much the import sets overlap: modules requested by >= 2 threads
+    let mut users = vec![0; case.modules.len()];
+    for p in &case.progs {
+        for m in case.closure(p) {
+            users[m] += 1;
+        }
     }
+    out.add("shared_module_requests", users.iter().filter(|u| **u >= 2).count() as u64);
+    let mut last = None;
+    for attempt in 0..MAX_RUNS {
+        let r = one_par_run(case, &cj, timeout);
+        out.count("par_runs");
+        out.count(&format!("outcome:{}", r.class));
+        out.add("collections_while_running", r.collections);
+        for (fp, what) in &r.failures {
+            out.oracle_fail(fp, what, cj.clone());
+            out.count(&format!("failure:{}", fp));
+        }
+        let clean = r.failures.is_empty();
+        if !clean && attempt + 1 < MAX_RUNS {
+            out.count("retried_after_failure");
+        }
+        last = Some(r);
+        if clean {
+            break;
+        }
+    }
+    let r = last.unwrap();
+    out.class(format!("{}:{}", shape(case), r.class));
+    if out.n_cases % 9 == 2 {
+        out.sample(json!({"case": cj, "impl": r.payload}));
+    }
+    out.case(&req, &r.payload);
+}
+
+// ---------------------------------------------------------------------------------------------
+// lock scenarios
+#[derive(Clone, Debug, PartialEq)]
+enum LOp {
+    Reroot(usize, usize),
+    Collect(usize),
+    Push(usize, usize),
+    NewThread(usize),
+}
+
+impl LOp {
+    fn json(&self) -> Value {
+        match self {
+            LOp::Reroot(d, s) => json!(["reroot", d, s]),
+            LOp::Collect(t) => json!(["collect", t]),
+            LOp::Push(c, o) => json!(["push", c, o]),
+            LOp::NewThread(p) => json!(["newthread", p]),
+        }
+    }
+    fn sexp(&self) -> String {
+        match self {
+            LOp::Reroot(d, s) => format!("(reroot {} {})", d, s),
+            LOp::Collect(t) => format!("(collect {})", t),
+            LOp::Push(c, o) => format!("(push {} {})", c, o),
+            LOp::NewThread(p) => format!("(newthread {})", p),
+        }
+    }
+    fn from_json(v: &Value) -> LOp {
+        let u = |i: usize| v[i].as_u64().unwrap() as usize;
+        match v[0].as_str().unwrap() {
+            "reroot" => LOp::Reroot(u(1), u(2)),
+            "collect" => LOp::Collect(u(1)),
+            "push" => LOp::Push(u(1), u(2)),
+            _ => LOp::NewThread(u(1)),
+        }
+    }
+}
+
+/// Fingerprint of a hang: which two call shapes were running.
+fn lock_fingerprint(ops: &[LOp]) -> String {
+    let all = |f: &dyn Fn(&LOp) -> bool| ops.iter().all(|o| f(o));
+    let any = |f: &dyn Fn(&LOp) -> bool| ops.iter().any(|o| f(o));
+    if all(&|o| matches!(o, LOp::Reroot(..))) {
+        "deadlock:deep_clone_value-opposite-transfers".to_string()
+    } else if any(&|o| matches!(o, LOp::Collect(_))) && any(&|o| matches!(o, LOp::Push(..))) {
+        "deadlock:collect-vs-push-of-value-rooted-in-collecting-thread".to_string()
+    } else if any(&|o| matches!(o, LOp::Collect(_))) && any(&|o| matches!(o, LOp::Reroot(..))) {
+        "deadlock:collect-vs-re_root-against-collection-order".to_string()
+    } else {
+        let mut k: Vec<&str> = ops
+            .iter()
+            .map(|o| match o {
+                LOp::Reroot(..) => "re_root",
+                LOp::Collect(_) => "collect",
+                LOp::Push(..) => "push",
+                LOp::NewThread(_) => "new_thread",
+            })
+            .collect();
+        k.sort();
+        format!("deadlock:{}", k.join("-vs-"))
+    }
+}
+
+/// threads: 0 = root, 1..nth-1 children of the root.
+fn run_locks(out: &mut Out, nth: usize, ops: &[LOp], iters: u64, timeout: Duration) {
+    let cj = json!({"kind": "locks", "nthreads": nth, "ops": ops.iter().map(|o| o.json()).collect::<Vec<_>>(), "iters": iters});
+    let req = format!("locks {} {}", nth, ops.iter().map(|o| o.sexp()).collect::<Vec<_>>().join(" "));
     let ex = gv::child::run(&["--child"], &serde_json::to_vec(&cj).unwrap(), timeout);
     let payload = match &ex {
-        gv::child::Exit::Ok(_) => "(deadlock false)".to_string(),
+        gv::child::Exit::Ok(o) => {
+            if o.contains("\"panicked\":true") {
+                out.oracle_fail("panic:lock-scenario", &format!("an OS thread panicked in {:?}", ops), cj.clone());
+            }
+            "(deadlock false)".to_string()
+        }
         gv::child::Exit::Timeout(_) => {
             out.oracle_fail(
-                "deadlock:deep_clone_value-opposite-transfers",
-                &format!("OS threads re-rooting values between threads {:?} (dst, src) of one VM never finish", pairs),
+                &lock_fingerprint(ops),
+                &format!("OS threads repeating {:?} on threads of one VM (0 = root, others its children) never finish", ops),
                 cj.clone(),
             );
             "(deadlock true)".to_string()
         }
         gv::child::Exit::Signal(sig, _, err) => {
             out.oracle_fail(
-                &format!("crash:signal-{}:re_root", sig),
-                &format!("child died with signal {} ({})", sig, err.lines().last().unwrap_or("")),
+                &format!("crash:signal-{}:lock-scenario", sig),
+                &format!("child died with signal {} ({}) in {:?}", sig, err.lines().last().unwrap_or(""), ops),
                 cj.clone(),
             );
             format!("(crash signal {})", sig)
         }
         gv::child::Exit::Code(c, _, err) => {
             out.oracle_fail(
-                &format!("crash:exit-{}:re_root", c),
-                &format!("child exited with code {} ({})", c, err.lines().last().unwrap_or("")),
+                &format!("crash:exit-{}:lock-scenario", c),
+                &format!("child exited with code {} ({}) in {:?}", c, err.lines().last().unwrap_or(""), ops),
                 cj.clone(),
             );
             format!("(crash exit {})", c)
         }
     };
-    out.count("kind:xfer");
-    out.count(&format!("xfer-outcome:{}", ex.class()));
-    out.class(format!("xfer:{:?}:{}", pairs, ex.class()));
-    out.sample(json!({"case": cj, "impl": payload}));
+    out.count("kind:locks");
+    out.count(&format!("locks-outcome:{}", ex.class()));
+    out.class(format!("locks:{:?}:{}", ops, ex.class()));
+    if ops.len() >= 2 && out.samples.len() < 3 {
+        out.sample(json!({"case": cj, "impl": payload}));
+    }
     out.case(&req, &payload);
 }
 
@@ -814,20 +1012,20 @@ fn main() {
     let args = Args::parse();
     let mut out = Out::new(&args.out);
     let thorough = args.thorough();
-    let par_timeout = Duration::from_secs(if thorough { 120 } else { 60 });
-    let xfer_timeout = Duration::from_secs(if thorough { 20 } else { 8 });
+    let par_timeout = Duration::from_secs(if thorough { 60 } else { 30 });
+    let lock_timeout = Duration::from_secs(if thorough { 15 } else { 6 });
 
     if let Some(rp) = &args.replay {
         let v: Value = serde_json::from_str(&std::fs::read_to_string(rp).unwrap()).unwrap();
         let case = v.get("case").cloned().unwrap_or(v);
         let mut rng = Rng::new(args.seed, 1400);
+        // the schedule is not reproducible: run the case several times
         for round in 0..5 {
             match case["kind"].as_str().unwrap_or("") {
                 "par" => run_par(&mut out, &ParCase::from_json(&case), &mut rng, par_timeout),
-                "xfer" => {
-                    let pairs: Vec<(usize, usize)> = case["pairs"].as_array().unwrap().iter()
-                        .map(|p| (p[0].as_u64().unwrap() as usize, p[1].as_u64().unwrap() as usize)).collect();
-                    run_xfer(&mut out, case["nthreads"].as_u64().unwrap() as usize, &pairs, case["iters"].as_u64().unwrap(), xfer_timeout)
+                "locks" => {
+                    let ops: Vec<LOp> = case["ops"].as_array().unwrap().iter().map(LOp::from_json).collect();
+                    run_locks(&mut out, case["nthreads"].as_u64().unwrap() as usize, &ops, case["iters"].as_u64().unwrap(), lock_timeout)
                 }
                 _ => {}
             }
@@ -837,36 +1035,61 @@ fn main() {
         return;
     }
 
-    // ---- transfers (Locks model of deep_clone_value); threads 0 = root, 1, 2, 3 = children
+    // ---- lock scenarios (Locks model); threads 0 = root, 1, 2, 3 = its children
+    use LOp::*;
     let iters = if thorough { 200_000 } else { 40_000 };
-    let xfers: Vec<Vec<(usize, usize)>> = vec![
-        vec![(1, 2), (2, 1)], // opposite directions between siblings: D11
-        vec![(1, 2), (1, 2)], // same direction
-        vec![(1, 2), (3, 2)], // same source, different destinations
-        vec![(2, 1), (3, 1)],
-        vec![(1, 1), (1, 1)], // same thread: only one context
-        vec![(0, 1), (1, 0)], // parent <-> child, opposite
-        vec![(1, 0), (2, 0)], // from the parent into two children
-        vec![(1, 2), (3, 0)], // disjoint
-        vec![(1, 2), (2, 3)], // chain, no cycle
+    let scen: Vec<Vec<LOp>> = vec![
+        vec![Reroot(1, 2), Reroot(2, 1)], // opposite directions between siblings: D11
+        vec![Reroot(1, 2), Reroot(1, 2)], // same direction
+        vec![Reroot(1, 2), Reroot(3, 2)], // same source, different destinations
+        vec![Reroot(2, 1), Reroot(3, 1)],
+        vec![Reroot(1, 1), Reroot(1, 1)], // same thread: only one context
+        vec![Reroot(0, 1), Reroot(1, 0)], // parent <-> child, opposite
+        vec![Reroot(1, 0), Reroot(2, 0)], // from the parent into two children
+        vec![Reroot(1, 2), Reroot(3, 0)], // disjoint
+        vec![Reroot(1, 2), Reroot(2, 3)], // chain, no cycle
+        vec![Collect(0), Push(1, 0)],     // parent collects while a child is handed a parent-rooted argument
+        vec![Collect(0), Push(1, 1)],     // argument rooted in the child itself
+        vec![Collect(1), Push(1, 0)],     // the child collects itself
+        vec![Collect(0), Collect(1)],     // parent and child collect
+        vec![Collect(0), Collect(0)],
+        vec![Collect(0), NewThread(0)],
+        vec![Collect(0), NewThread(1)],
+        vec![NewThread(0), NewThread(0)],
+        vec![NewThread(0), Push(1, 0)],
+        vec![Push(1, 0), Push(2, 0)],
+        vec![Collect(0), Reroot(2, 1)],   // re-root in the order in which collect locks the children
     ];
-    let mut rngx = Rng::new(args.seed, 1401);
-    for x in &xfers {
-        run_xfer(&mut out, 4, x, iters, xfer_timeout);
+    for x in &scen {
+        run_locks(&mut out, 4, x, iters, lock_timeout);
     }
-    let extra = if thorough { 12 } else { 3 };
+    let mut rngx = Rng::new(args.seed, 1401);
+    let extra = if thorough { 16 } else { 4 };
     for _ in 0..extra {
-        let p: Vec<(usize, usize)> = (0..2).map(|_| (rngx.below(4) as usize, rngx.below(4) as usize)).collect();
-        run_xfer(&mut out, 4, &p, iters, xfer_timeout);
+        let p: Vec<LOp> = (0..2).map(|_| Reroot(rngx.below(4) as usize, rngx.below(4) as usize)).collect();
+        run_locks(&mut out, 4, &p, iters, lock_timeout);
     }
 
     // ---- parallel runs
     let mut rng = Rng::new(args.seed, 14);
-    let ncases = if thorough { 400 } else { 60 };
+    let ncases = if thorough { 300 } else { 48 };
     for i in 0..ncases {
         // 2..16 OS threads, every count is reached
         let nthreads = if i < 15 { 2 + i } else { rng.range(2, 16) as usize };
-        let case = gen_par(&mut rng, nthreads, thorough);
+        let mut case = gen_par(&mut rng, nthreads, thorough);
+        if case.collector && case.nchan > 0 {
+            // known finding `deadlock:collect-vs-push-…` (shown by the lock scenarios above): a
+            // collecting parent and a child that is handed a parent-rooted channel end deadlock.
+            // Keep the channel traffic, drop the collector.
+            case.collector = false;
+            out.count("skipped:collector-with-channel-pairs(known-deadlock)");
+        }
+        if case.spawn_inside && case.nchan > 0 {
+            // same cycle, the collection being the one `new_thread` triggers by allocating in the
+            // parent (lock scenario `new_thread-vs-push`)
+            case.spawn_inside = false;
+            out.count("skipped:concurrent-new_thread-with-channel-pairs(known-deadlock)");
+        }
         run_par(&mut out, &case, &mut rng, par_timeout);
     }
     out.finish();
